@@ -51,7 +51,10 @@ pub fn build_base(path: &str, pagesize: u64, commits_code: usize) -> Result<Base
     let noop_tail = (1000..2000).contains(&commits_code);
     // 2000 + n: n commits, both headers rewritten into the legacy (<= 0.10) format with the handle
     // closed, then one more commit by the current code (the upgrade commit)
-    let legacy_upgrade = commits_code >= 2000;
+    let legacy_upgrade = (2000..3000).contains(&commits_code);
+    // 3000 + n: the last commit makes committed leaves split; 4000 + n: the last commit deletes a
+    // committed bucket and allocates many pages (what the previous header points to must survive both)
+    let tail_kind = if commits_code >= 4000 { 2 } else if commits_code >= 3000 { 1 } else { 0 };
     let commits = commits_code % 1000;
     for i in 1..=commits {
         let v = r.step(&Action::Tx { ops: commit_ops(i), commit: true }, &Oracles::NONE);
@@ -73,6 +76,18 @@ pub fn build_base(path: &str, pagesize: u64, commits_code: usize) -> Result<Base
         let v = r.step(&Action::Tx { ops: commit_ops(commits + 1), commit: true }, &Oracles::NONE);
         if !v.is_empty() || r.poisoned {
             return Err(format!("base construction failed at the upgrade commit: {:?}", v));
+        }
+        states.push(r.model.clone());
+    }
+    if tail_kind > 0 {
+        let ops: Vec<OpSpec> = if tail_kind == 1 {
+            (0..10).map(|i| OpSpec::put(&["m"], &format!("split{:02}", i), "w*300")).chain((0..6).map(|i| OpSpec::put(&["m", "sub"], &format!("t{}", i), "w*300"))).collect()
+        } else {
+            std::iter::once(OpSpec::bucket("delb", &["m"], "sub")).chain((0..12).map(|i| OpSpec::put(&["m"], &format!("fresh{:02}", i), "w*300"))).chain(std::iter::once(OpSpec::bucket("create", &["m"], "sub2"))).chain((0..4).map(|i| OpSpec::put(&["m", "sub2"], &format!("u{}", i), "x*1500"))).collect()
+        };
+        let v = r.step(&Action::Tx { ops, commit: true }, &Oracles::NONE);
+        if !v.is_empty() || r.poisoned {
+            return Err(format!("base construction failed at the tail commit: {:?}", v));
         }
         states.push(r.model.clone());
     }
@@ -352,6 +367,10 @@ pub fn run(check: &mut Check) {
         // legacy-format files with an even / odd number of commits, upgraded by one commit
         codes.push(2002);
         codes.push(2003);
+        // the last commit splits committed leaves / deletes a committed bucket and allocates
+        codes.push(3003);
+        codes.push(4003);
+        codes.push(4002);
         if tier == Tier::Thorough {
             codes.push(1005);
             codes.push(2004);
